@@ -60,14 +60,14 @@ def elem_of(bt, b):
 
 
 def cases(rng, tier):
-    n = {"quick": 300, "thorough": 5000, "search": 1500}[tier]
+    n = {"quick": 700, "thorough": 6000, "search": 2000}[tier]
     out = []
     for _ in range(n):
         B = rng.randint(1, 4)
         N = rng.randint(2, 4)
         shape = [rng.randint(2, 3) for _ in range(N)]
         stream = "int" if rng.random() < 0.6 else "float"
-        op = rng.choice(OPS)
+        op = rng.choice(OPS + ["round_tt", "round_tt", "round_tucker"])      # rounding is where batch and non-batch code differ most
         cls = rng.choice(CLASSES)
         c = {"op": op, "B": B, "shape": shape, "stream": stream, "cls": cls,
              "x": [e.to_json() for e in gen_batch(rng, B, shape, cls, stream)], "seed": rng.randrange(1 << 30)}
@@ -88,7 +88,7 @@ def cases(rng, tier):
         if op == "batchsel":
             c["bkey"] = ["i", rng.randint(-B, B - 1)] if rng.random() < 0.5 else gen_slice(rng, B)
         if op in ("round_tt", "round_tucker", "construct_r"):
-            c["rmax"] = rng.randint(1, 3)
+            c["rmax"] = rng.choice([1, 1, 2, 3])
         if op == "orth":
             c["mu"] = rng.randint(0, N - 1)
         if op == "guard":
